@@ -1023,7 +1023,7 @@ func (it *Interp) doCall(fr *frame, c ssa.CallInstruction, st *State, k cont) {
 	case fv.Op == "param":
 		st.nCall++
 		n := st.nCall
-		st.Events = append(st.Events, Event{Kind: "usercall", N: n, InOp: st.curOp, InRange: st.curRng, Name: fv.K, Args: args, Pos: pos})
+		st.Events = append(st.Events, Event{Kind: "usercall", N: n, InOp: st.curOp, InRange: st.curRng, Name: fv.K, Args: args, Pos: pos, ClockBefore: st.nClock})
 		var rets []*Term
 		nres := cc.Signature().Results().Len()
 		for i := 0; i < nres; i++ {
@@ -1032,7 +1032,7 @@ func (it *Interp) doCall(fr *frame, c ssa.CallInstruction, st *State, k cont) {
 		k(st, rets)
 	case fv.Op == "aload":
 		st.nCall++
-		st.Events = append(st.Events, Event{Kind: "callback", N: st.nCall, InOp: st.curOp, InRange: st.curRng, Name: fv.K, Args: args, Pos: pos})
+		st.Events = append(st.Events, Event{Kind: "callback", N: st.nCall, InOp: st.curOp, InRange: st.curRng, Name: fv.K, Args: args, Pos: pos, ClockBefore: st.nClock})
 		k(st, nil)
 	default:
 		st.nCall++
